@@ -2,6 +2,7 @@ package main
 
 import (
 	"math/big"
+	"sync"
 )
 
 // C01 / C02 / C03 / C13(rational): <ctor> <num> <den> <depth>  =>  Z 0 -1 | N e k d1..dk ended | PANIC msg
@@ -35,6 +36,62 @@ func runPair(c *Case) []string {
 	}
 	out := observeDigits(A, dA2)
 	return append(out, observeDigits(B, dB)...)
+}
+
+// ConcRoots: different Numbers computed at the same time from different goroutines (no shared state between Numbers).
+// ConcRoots g (ctor num den depth)*  =>  obs_1 obs_2 ...
+func runConcRoots(c *Case) []string {
+	a := &cur{t: c.Args}
+	g := a.int()
+	type job struct {
+		ctor     string
+		num, den *big.Int
+		depth    int
+	}
+	jobs := make([]job, g)
+	for i := range jobs {
+		jobs[i] = job{a.next(), a.big(), a.big(), a.int()}
+	}
+	outs := make([][]string, g)
+	var wg sync.WaitGroup
+	for i := range jobs {
+		wg.Add(1)
+		go func(i int) {
+			defer wg.Done()
+			defer func() {
+				if e := recover(); e != nil {
+					outs[i] = []string{"PANIC", "x"}
+				}
+			}()
+			x := makeRoot(c.Ver, jobs[i].ctor, jobs[i].num, jobs[i].den)
+			outs[i] = observeDigits(x, jobs[i].depth)
+		}(i)
+	}
+	wg.Wait()
+	var out []string
+	for _, o := range outs {
+		out = append(out, o...)
+	}
+	return out
+}
+
+func genConcRoots(r *Rng, emit func(Case), n int) {
+	for i := 0; i < n; i++ {
+		g := r.Range(2, 4)
+		var t toks
+		t.i(g)
+		for k := 0; k < g; k++ {
+			ctor := "CubeRootBigInt"
+			if r.Intn(3) == 0 {
+				ctor = "SqrtBigInt"
+			}
+			t.s(ctor)
+			t.i(r.Range(2, 99))
+			t.i(1)
+			t.i(r.Pick([]int{150, 210, 260}))
+		}
+		emit(Case{Ver: allVers[i%3], Op: "ConcRoots", Args: t})
+	}
 }
 
 func genPairs(r *Rng, emit func(Case), famA, famB []string, n int) {
@@ -410,6 +467,7 @@ func init() {
 		ops[c] = runRoot
 	}
 	ops["Pair"] = runPair
+	ops["ConcRoots"] = runConcRoots
 	register("C01", genRoots(sqrtCtors, 2), ops)
 	register("C02", genRoots(cubeCtors, 3), ops)
 	register("C03", genC03, ops)
